@@ -1,7 +1,9 @@
 package sym
 
 import (
+	"encoding/json"
 	"go/types"
+	"math"
 
 	"golang.org/x/tools/go/ssa"
 )
@@ -122,7 +124,58 @@ func init() {
 			m.store(target.V, m.C.Extract(val, w-1, 0))
 			return Iface{}
 		}
+		if b.Info()&types.IsFloat != 0 {
+			// floating-point targets: only concrete text, evaluated by the host's encoding/json
+			// (floats are concrete in the engine)
+			if !data.Concrete() {
+				m.unsupported("json.Unmarshal of symbolic text into a float")
+			}
+			text := goString(data)
+			if b.Kind() == types.Float32 {
+				var f float32
+				if err := json.Unmarshal([]byte(text), &f); err != nil {
+					return mkErr()
+				}
+				m.store(target.V, float64(f))
+				return Iface{}
+			}
+			var f float64
+			if err := json.Unmarshal([]byte(text), &f); err != nil {
+				return mkErr()
+			}
+			m.store(target.V, f)
+			return Iface{}
+		}
 		m.unsupported("json.Unmarshal into " + target.T.String())
 		return nil
+	})
+	// math bit casts on concrete floats
+	reg("math.Float64bits", func(m *Machine, fn *ssa.Function, args []Value) Value {
+		f, ok := args[0].(float64)
+		if !ok {
+			m.unsupported("math.Float64bits of a non-concrete float")
+		}
+		return m.C.BV(64, math.Float64bits(f))
+	})
+	reg("math.Float64frombits", func(m *Machine, fn *ssa.Function, args []Value) Value {
+		t := m.asTerm(args[0])
+		if !t.IsConst() {
+			m.unsupported("math.Float64frombits of symbolic bits")
+		}
+		return math.Float64frombits(t.Val)
+	})
+	reg("math.Float32bits", func(m *Machine, fn *ssa.Function, args []Value) Value {
+		f, ok := args[0].(float64)
+		if !ok {
+			m.unsupported("math.Float32bits of a non-concrete float")
+		}
+		return m.C.BV(32, uint64(math.Float32bits(float32(f))))
+	})
+	reg("math.Float32frombits", func(m *Machine, fn *ssa.Function, args []Value) Value {
+		t := m.asTerm(args[0])
+		if !t.IsConst() {
+			m.unsupported("math.Float32frombits of symbolic bits")
+		}
+		return float64(math.Float32frombits(uint32(t.Val)))
 	})
 }
